@@ -68,6 +68,12 @@ func (fr *Frame) resolveLocal(name string, st *State) (Val, bool) {
 		if v.Loc == nil {
 			return Val{T: pt.Elem(), Term: fmt.Sprintf("(val_%s %s)", vc.S.Sort(pt.Elem()), v.Term)}
 		}
+		if len(v.Loc.Path) == 0 {
+			if pv, ok := st.ptrs[v.Loc.Cell]; ok {
+				pv.T = pt.Elem()
+				return pv // a captured pointer variable: the pointer it holds, with its identity
+			}
+		}
 		out := Val{T: pt.Elem(), Term: vc.load(st, v.Loc)}
 		switch pt.Elem().Underlying().(type) {
 		case *types.Slice, *types.Map, *types.Pointer:
@@ -99,10 +105,10 @@ func (fr *Frame) resolveLocal(name string, st *State) (Val, bool) {
 			}
 		}
 	}
-	if best != nil && !(fr.postMode && fr.isParamName(name)) {
+	if best != nil && !((fr.postMode || fr.oldMode) && fr.isParamName(name)) {
 		return readPtr(*best), true
 	}
-	if !fr.postMode {
+	if !fr.postMode && !(fr.oldMode && fr.isParamName(name)) {
 		if d, ok := fr.lastDef[name]; ok {
 			if v, ok := fr.env[d.v]; ok {
 				if d.isAddr {
